@@ -554,10 +554,14 @@ def u_multicategorical(ctx, which):
             comps = [Categorical(**{kind: p}) for p in pieces]  # independently constructed components
             ks = jr.split(key, s + K)
             ss, sl = jax.vmap(d.sample_and_log_prob)(ks[s:])
-            return dict(lp=jax.vmap(d.log_prob)(support), pr=jax.vmap(d.prob)(support), ent=d.entropy(), mode=d.mode(),
-                        smp=jax.vmap(d.sample)(ks[:s]), ss=ss, sl=sl, lps=jax.vmap(d.log_prob)(ss),
-                        comp_lp=[jax.vmap(c.log_prob)(jnp.arange(n)) for c, n in zip(comps, dims)],
-                        comp_ent=jnp.stack([c.entropy() for c in comps]))
+            out = dict(lp=jax.vmap(d.log_prob)(support), pr=jax.vmap(d.prob)(support), ent=d.entropy(), mode=d.mode(),
+                       smp=jax.vmap(d.sample)(ks[:s]), ss=ss, sl=sl, lps=jax.vmap(d.log_prob)(ss),
+                       comp_lp=[jax.vmap(c.log_prob)(jnp.arange(n)) for c, n in zip(comps, dims)],
+                       comp_ent=jnp.stack([c.entropy() for c in comps]))
+            if max(dims) <= 128:
+                # the same values as the narrowest integer type that holds them (actions stored compactly)
+                out["lp_int8"] = jax.vmap(d.log_prob)(support.astype(jnp.int8))
+            return out
         return one, np.asarray(support)
 
     def gen(dims, form, kind_i):
@@ -609,6 +613,13 @@ def u_multicategorical(ctx, which):
             i = int(np.argmax(diff - tol))
             ctx.violation("multicategorical-logprob-not-sum-of-components",
                           {"case": desc, "value": support[i], "got": float(lp[i]), "want": float(want[i])})
+        if "lp_int8" in o:
+            ctx.monitor("log_prob_of_int8_values_points", len(support))
+            a8, a32 = np.asarray(o["lp_int8"], np.float64), np.asarray(o["lp"], np.float64)
+            if not np.array_equal(np.isfinite(a8), np.isfinite(a32)) or np.any(np.abs(a8 - a32)[np.isfinite(a32)] > 1e-6):
+                j = int(np.argmax(np.where(np.isfinite(a32) & np.isfinite(a8), np.abs(a8 - a32), np.inf)))
+                ctx.violation("multicategorical-log-prob-depends-on-the-integer-dtype-of-the-value",
+                              {"case": desc, "value": support[j], "as_int8": float(a8[j]), "as_int32": float(a32[j])})
         he = float(np.sum(np.asarray(o["comp_ent"], np.float64)))
         if not abs(float(o["ent"]) - he) <= 1e-5 * k + 1e-5 * abs(he):
             ctx.violation("multicategorical-entropy-not-sum-of-components", {"case": desc, "got": float(o["ent"]), "want": he})
